@@ -45,10 +45,11 @@ pub fn pick_cap(u: &mut Choice, k: usize) -> usize {
 }
 
 pub fn pick_place(u: &mut Choice) -> Placement {
-    match u.weighted(&[150, 50, 56]) {
+    match u.weighted(&[150, 40, 36, 30]) {
         0 => Placement::End,
         1 => Placement::Start,
-        _ => Placement::Interior(u.below(64) as u8),
+        2 => Placement::Interior(u.below(64) as u8),
+        _ => Placement::Cross(u.below(190) as u8),
     }
 }
 
@@ -269,10 +270,12 @@ pub fn families_phase<F>(r: &Runner, sub: &'static str, accept: &(dyn Fn(Entry, 
 where
     F: Fn(&Runner, &mut Ctx, &mut Local, &CaseRec) -> Result<(), Violation> + Sync,
 {
-    const SIZES: [usize; 7] = [40, 100, 180, 300, 700, 1500, 4200];
+    // the two large sizes put every countable thing of a family (start-line bytes, leading
+    // lines, field bytes, whitespace runs, header lines) beyond 2^16
+    const SIZES: [usize; 9] = [40, 100, 180, 300, 700, 1500, 4200, 66_000, 131_500];
     let vars = 3u64;
     let total = crate::gen::N_FAMILIES as u64 * SIZES.len() as u64 * vars;
-    r.par_enum("scale families at 40 B..4 KiB × {whole, truncated, late error}: long fields, whitespace runs, many headers, folds, ignored lines", total, |ctx, l, idx| {
+    r.par_enum("scale families at 40 B..4 KiB, 66 000 B and 131 500 B × {whole, truncated, late error}: long fields, whitespace runs, many headers, folds, ignored lines", total, |ctx, l, idx| {
         let var = idx % vars;
         let x = idx / vars;
         let fam = (x % crate::gen::N_FAMILIES as u64) as usize;
